@@ -951,6 +951,19 @@ class Evaluator:
                 elif alt.get("p") == "bind":
                     name = "_"
                     e2[alt["name"]] = sc
+                elif alt.get("p") == "slice" and "mid" not in alt and not alt.get("after"):
+                    # `match v[..] { [a] => .., [a, b] => .. }`: a case split on the length, items named v.0, v.1 ...
+                    name = str(len(alt.get("before", [])))
+                    base = sc[1] if (sc is not None and not is_form(sc) and sc[0] == "obj") else next(((x.get("res") or {}).get("local") for x in hirq.walk(n["scrut"]) if isinstance(x, dict) and x.get("k") == "Path" and (x.get("res") or {}).get("local")), None)
+                    if base is None:
+                        return None
+                    for j, q in enumerate(alt.get("before", [])):
+                        while q.get("p") == "ref":
+                            q = q["sub"]
+                        if q.get("p") == "bind":
+                            e2[q["name"]] = ("obj", f"{base}.{j}")
+                        elif q.get("p") != "wild":
+                            return None
                 elif alt.get("p") == "tuple":
                     name = "(" + ",".join(_pat_name(q) for q in alt["pats"]) + ")"
                     i = 0
